@@ -465,16 +465,44 @@ pub struct DepthCase {
     depth: u32,
     maps: bool,
     in_wal: bool,
+    /// what sits at the bottom and beside the chain: 0 = a scalar in the innermost container,
+    /// 1 = the innermost container is an empty list, 2 = an empty map, 3 = every level also
+    /// holds a scalar before the nested child, 4 = a scalar after it
+    #[serde(default)]
+    shape: u8,
 }
 
 /// The writer and the reader must agree on how deep values may nest: whatever the WAL agrees
 /// to encode must decode to the same value; a bare value up to the documented limit too.
 fn check_depth(c: &DepthCase, obs: &mut Obs) -> CaseResult {
-    let mut v = PropertyValue::Int(7);
-    for i in 0..c.depth {
-        v = if c.maps && i % 2 == 0 { PropertyValue::Map(BTreeMap::from([("k".to_string(), v)])) } else { PropertyValue::List(vec![v]) };
+    let (mut v, levels) = match c.shape {
+        1 => (PropertyValue::List(vec![]), c.depth - 1),
+        2 => (PropertyValue::Map(BTreeMap::new()), c.depth - 1),
+        _ => (PropertyValue::Int(7), c.depth),
+    };
+    for i in 0..levels {
+        v = if c.maps && i % 2 == 0 {
+            let mut m = BTreeMap::from([("k".to_string(), v)]);
+            match c.shape {
+                3 => {
+                    m.insert("a".to_string(), PropertyValue::Int(1));
+                }
+                4 => {
+                    m.insert("z".to_string(), PropertyValue::Int(1));
+                }
+                _ => {}
+            }
+            PropertyValue::Map(m)
+        } else {
+            match c.shape {
+                3 => PropertyValue::List(vec![PropertyValue::Int(1), v]),
+                4 => PropertyValue::List(vec![v, PropertyValue::Int(1)]),
+                _ => PropertyValue::List(vec![v]),
+            }
+        };
     }
     obs.nontrivial();
+    obs.class(&format!("shape:{}", c.shape));
     if c.in_wal {
         let rec = WalRecord::SetNodeProperty { node: 1, key: "p".into(), value: v };
         match rec.verif_encode_body() {
@@ -1203,7 +1231,7 @@ pub fn run(ctx: &mut RunCtx) {
     ctx.assume("the worker decodes on its main thread (8 MiB stack by default): the stack an embedding application gives the library");
 
     let depth = ctx.tier.pick(6, 8);
-    let n_rt = ctx.tier.pick(20_000, 2_500_000);
+    let n_rt = ctx.tier.pick(40_000, 2_500_000);
     ctx.explore_with(
         "value-roundtrip",
         "structurally generated values (all nine kinds, depth <= 6 with up to 8 entries per level, flat lists/maps of up to 64 entries, chains up to 48 deep, NaN payloads / signed zeros / subnormals, empty and non-ASCII strings and keys, blobs): decode(encode(v)) compared bit-exactly by an own comparator and by the bit-pattern mirror, and encode(decode(encode(v))) == encode(v); non-trivial = nested value",
@@ -1273,18 +1301,23 @@ pub fn run(ctx: &mut RunCtx) {
     for in_wal in [false, true] {
         for maps in [false, true] {
             for depth in (1..=260u32).chain([500, 1000, 3000]) {
-                depth_cases.push(DepthCase { depth, maps, in_wal });
+                depth_cases.push(DepthCase { depth, maps, in_wal, shape: 0 });
+            }
+            for shape in 1..=4u8 {
+                for depth in (1..=8u32).chain(60..=70).chain(120..=140).chain(250..=260).chain([1000]) {
+                    depth_cases.push(DepthCase { depth, maps, in_wal, shape });
+                }
             }
         }
     }
     ctx.assume("bare values nested deeper than nervusdb_api::MAX_NESTING_DEPTH (128) are outside the encodable domain: PropertyValue::encode is infallible by signature, the WAL (the only writer of untrusted-on-replay bytes) refuses them; checked: every depth the WAL accepts decodes to the same record");
     ctx.explore_with(
         "nesting-depth",
-        "exhaustive over nesting depths 1..=260, 500, 1000, 3000 x {lists, alternating maps} x {bare value, SetNodeProperty record}: a record that encode_body accepts must decode to the same record (writer and reader agree on the depth limit), a bare value up to the documented limit must round-trip",
+        "exhaustive over nesting depths 1..=260, 500, 1000, 3000 x {lists, alternating maps} x {bare value, SetNodeProperty record}, and around 1-8, 60-70, 120-140, 250-260 with an empty innermost container or a scalar beside the nested child at every level: a record that encode_body accepts must decode to the same record (writer and reader agree on the depth limit), a bare value up to the documented limit must round-trip",
         0,
         depth_cases,
         true,
-        || Just(DepthCase { depth: 1, maps: false, in_wal: false }),
+        || Just(DepthCase { depth: 1, maps: false, in_wal: false, shape: 0 }),
         check_depth,
     );
 
@@ -1304,7 +1337,7 @@ pub fn run(ctx: &mut RunCtx) {
             std::process::exit(2);
         }
     }
-    let n_rob = ctx.tier.pick(20_000, 2_500_000);
+    let n_rob = ctx.tier.pick(40_000, 2_500_000);
     let depths: Vec<u32> = ctx.tier.pick(vec![60, 127, 128, 129, 1000, 10_000, 100_000], vec![60, 127, 128, 129, 1000, 10_000, 100_000, 1_000_000]);
     let fixed = vec![
         ByteCase::Deep { target: Target::Value, shape: DeepShape::Lists, depth: 100_000, closed: true },
